@@ -1280,3 +1280,89 @@ Example oracle_flags_f12b :
   agrees f12b_case = false /\ c12_ok f12b_case = false /\
   agrees f12b_repaired_case = true /\ c12_ok f12b_repaired_case = true /\ c12_confined f12b_repaired_case = true.
 Proof. vm_compute. repeat split; reflexivity. Qed.
+
+(** * The trust-anchor proxy as local parent *)
+
+Lemma ta_slow_children st c ch k issue valid st' ok c' :
+  ta_slow st c ch k issue valid = (st', ok) -> c' <> c -> aget c' (ta_children st') = aget c' (ta_children st).
+Proof.
+  assert (E : (c' =? c) = false -> forall f, aget c' (aupd c f (ta_children st)) = aget c' (ta_children st)).
+  { intros E f. rewrite aget_aupd, E. reflexivity. }
+  intros H Hne. apply N.eqb_neq in Hne. unfold ta_slow in H.
+  repeat (destr_match; try discriminate); inversion H; subst; cbn [ta_children]; auto.
+Qed.
+
+Lemma ta_process_frame st ua c r st' res c' :
+  ta_process st ua c r = (st', res) -> c' <> c -> aget c' (ta_children st') = aget c' (ta_children st).
+Proof.
+  unfold ta_process. destruct (aget c (ta_children st)) as [ch|] eqn:Ec; [|intros H; inversion H; reflexivity].
+  intros H Hne.
+  match type of H with (let '(st1, ok) := ?X in _) = _ => destruct X as [st1 ok] eqn:E1 end.
+  inversion H; subst; clear H. cbn [ta_children].
+  rewrite aget_aupd. assert (E : (c' =? c) = false) by (apply N.eqb_neq; exact Hne). rewrite E.
+  destruct r; try (inversion E1; subst; reflexivity); eapply ta_slow_children; eauto.
+Qed.
+
+Lemma ta_process_known st ua c r ch : aget c (ta_children st) = Some ch -> exists ok, snd (ta_process st ua c r) = Some ok.
+Proof.
+  intros Hc. unfold ta_process. rewrite Hc.
+  match goal with |- context [let '(st1, ok) := ?X in _] => destruct X as [st1 ok] end. cbn. eauto.
+Qed.
+
+(** The repaired shortcut acts only for a child of the TA whose registered ID key is the caller's ... *)
+Theorem ta_local_acts_only_for_registered_key st cl r st' ok :
+  ta_local6492 st cl r = (st', Some ok) ->
+  exists ch, aget (cl_contact_child cl) (ta_children st) = Some ch /\ tc_id ch = cl_id cl.
+Proof.
+  unfold ta_local6492. destruct (aget (cl_contact_child cl) (ta_children st)) as [ch|]; [|discriminate].
+  destruct (tc_id ch =? cl_id cl) eqn:E; [|discriminate]. apply N.eqb_eq in E. eauto.
+Qed.
+
+(** ... any other caller is refused, a refusal leaves the proxy untouched (no queued request, no status entry) ... *)
+Theorem ta_local_wrong_key_refused st cl r :
+  (forall ch, aget (cl_contact_child cl) (ta_children st) = Some ch -> tc_id ch <> cl_id cl) ->
+  ta_local6492 st cl r = (st, None).
+Proof.
+  intros H. unfold ta_local6492. destruct (aget (cl_contact_child cl) (ta_children st)) as [ch|]; [|reflexivity].
+  destruct (tc_id ch =? cl_id cl) eqn:E; [|reflexivity]. apply N.eqb_eq in E. destruct (H ch eq_refl E).
+Qed.
+
+Theorem ta_local_refused_no_change st cl r st' : ta_local6492 st cl r = (st', None) -> st' = st.
+Proof.
+  unfold ta_local6492. destruct (aget (cl_contact_child cl) (ta_children st)) as [ch|] eqn:Ec; [|congruence].
+  destruct (tc_id ch =? cl_id cl); [|congruence]. unfold ta_local6492_pinned.
+  destruct (ta_process_known st local_ua _ r _ Ec) as [ok Hk].
+  destruct (ta_process st local_ua (cl_contact_child cl) r) as [s1 res]. cbn in Hk. congruence.
+Qed.
+
+(** ... and no other child of the TA is touched. *)
+Theorem ta_local_effects_confined st cl r st' res c' :
+  ta_local6492 st cl r = (st', res) -> c' <> cl_contact_child cl ->
+  aget c' (ta_children st') = aget c' (ta_children st).
+Proof.
+  unfold ta_local6492. destruct (aget (cl_contact_child cl) (ta_children st)) as [ch|]; [|intros H; inversion H; reflexivity].
+  destruct (tc_id ch =? cl_id cl); [|intros H; inversion H; reflexivity].
+  unfold ta_local6492_pinned. apply ta_process_frame.
+Qed.
+
+(** Regression witness: without the comparison (the pinned tree; a check that only knows [CertAuth]
+    parents) a CA whose contact names the TA's child 2 queues a certificate request in that child's name. *)
+Definition ta_acts_only_for_registered_key_on (lp : taproxy -> caller -> req -> taproxy * option bool) : Prop :=
+  forall st cl r st' ok, lp st cl r = (st', Some ok) ->
+    exists ch, aget (cl_contact_child cl) (ta_children st) = Some ch /\ tc_id ch = cl_id cl.
+
+Definition f12a_ta : taproxy := mkTa [(2, mkTaChild 20 255 [] [] [] None)] 4.
+
+Theorem ta_local_pinned_refuted : ~ ta_acts_only_for_registered_key_on ta_local6492_pinned.
+Proof.
+  intros H. destruct (H f12a_ta (mkCaller 3 99 2) (RIssue ta_rcn 7 None true) _ _ eq_refl) as [ch [A B]].
+  cbn in A. inversion A; subst. cbn in B. discriminate.
+Qed.
+
+Example ta_local_nonvacuous :
+  ta_local6492_pinned f12a_ta (mkCaller 3 99 2) (RIssue ta_rcn 7 None true)
+    = (mkTa [(2, mkTaChild 20 255 [] [(7, true)] [] (Some (0, true)))] 5, Some true) /\
+  ta_local6492 f12a_ta (mkCaller 3 99 2) (RIssue ta_rcn 7 None true) = (f12a_ta, None) /\
+  ta_local6492 f12a_ta (mkCaller 2 20 2) (RIssue ta_rcn 7 None true)
+    = (mkTa [(2, mkTaChild 20 255 [] [(7, true)] [] (Some (0, true)))] 5, Some true).
+Proof. repeat split; vm_compute; reflexivity. Qed.
